@@ -122,3 +122,26 @@ Theorem C01_engine_eq_rule_by_rule_plain : forall h matches src url L T,
   blocker_check matches (probes h src url) (tags_with_set h (blocker_new h L) T) = spec_verdict matches L T.
 Proof. exact engine_eq_spec_plain. Qed.
 Print Assumptions C01_engine_eq_rule_by_rule_plain.
+
+(* ------------------------------------------------------------------ the token guarantee for
+   hostname-anchored rules without pattern (||host, ||host^ — the bulk of real lists), proved from
+   the concrete tokenizer and C02's label-boundary characterisation of anchored_hostname_end *)
+From Adb Require Import Tok_Host_Proofs.
+From Adb Require C02_Model.
+
+Theorem C01_hostname_tokens_covered : forall hn host e o upre upost t,
+  C02_Model.anchor_at hn host false e o ->
+  ends_delim upre -> starts_delim upost ->
+  In t (tku false false hn 0 None None) ->
+  In t (tku false false (upre ++ host ++ upost) 0 None None).
+Proof. exact hostname_tokens_covered. Qed.
+Print Assumptions C01_hostname_tokens_covered.
+
+Theorem C01_token_guarantee_host : forall h f hn src url host e k,
+  host_rule f hn -> hn <> [] ->
+  C02_Model.anchored_hostname_end hn host false e = Some k ->
+  host_in_url url host ->
+  within_cutoff false false url -> within_cutoff false false hn ->
+  covered h (probes h src url) f.
+Proof. exact token_guarantee_host. Qed.
+Print Assumptions C01_token_guarantee_host.
